@@ -283,9 +283,18 @@ class DictReader:
                 # Make sure to always use the correct odml format attribute name
                 doc_attrs[odmlfmt.Document.map(attr)] = self.parsed_doc[i]
 
-        doc = odmlfmt.Document.create(**doc_attrs)
+        try:
+            doc = odmlfmt.Document.create(**doc_attrs)
+        except Exception as exc:
+            msg = "Document not created (%s)\n  %s" % (doc_attrs, str(exc))
+            self.error(msg)
+            doc = odmlfmt.Document.create()
+
         for sec in doc_secs:
-            doc.append(sec)
+            try:
+                doc.append(sec)
+            except Exception as exc:
+                self.error("Section not added (%s)\n  %s" % (sec, str(exc)))
 
         return doc
 
@@ -322,17 +331,21 @@ class DictReader:
 
             try:
                 sec = odmlfmt.Section.create(**sec_attrs)
-
-                for prop in sec_props:
-                    sec.append(prop)
-
-                for child_sec in children_secs:
-                    sec.append(child_sec)
-
-                odml_sections.append(sec)
             except Exception as exc:
                 msg = "Section not created (%s)\n  %s" % (sec_attrs, str(exc))
                 self.error(msg)
+                continue
+
+            # A child that cannot be added (e.g. a second child of the same
+            # name) must not take the whole Section with it.
+            for child in sec_props + children_secs:
+                try:
+                    sec.append(child)
+                except Exception as exc:
+                    msg = "Section not created (%s)\n  %s" % (sec_attrs, str(exc))
+                    self.error(msg)
+
+            odml_sections.append(sec)
 
         return odml_sections
 
